@@ -183,10 +183,19 @@ def lit_rs(s):
     return '"' + s.replace("\\", "\\\\").replace('"', '\\"').replace("\n", "\\n").replace("\t", "\\t") + '"'
 
 
-def variant_code(sh, vname, attr, lit, targs, self_path):
+def lit_spelled(s, spell):
+    """The same string value in another source spelling: every character as a `\\u{..}` escape, or a raw string."""
+    if spell == "escaped":
+        return '"' + "".join("\\u{%x}" % ord(ch) for ch in s) + '"'
+    if spell == "raw" and '"#' not in s:
+        return 'r#"' + s + '"#'
+    return lit_rs(s)
+
+
+def variant_code(sh, vname, attr, lit, targs, self_path, spell=None):
     """Returns (variant declaration, check code lines)."""
     args_attr = ", ".join(("%s = %s" % (a, e)) if a else e for a, e, _, _ in targs)
-    decl = "#[%s(%s%s)] %s%s" % (attr, lit_rs(lit), (", " + args_attr) if args_attr else "", vname, sh.decl())
+    decl = "#[%s(%s%s)] %s%s" % (attr, lit_spelled(lit, spell), (", " + args_attr) if args_attr else "", vname, sh.decl())
     return decl
 
 
@@ -201,7 +210,8 @@ def case_for(cid, derive, sh, entries, struct_mode=False):
     for k, (lit, tname, targs) in enumerate(entries):
         vname = "V%d" % k
         lit = lit + tail_for(targs, lit)
-        variants.append(variant_code(sh, vname, attr, lit, targs, None))
+        # a deterministic subset of the literals is written in another source spelling (escapes / raw string): same value
+        variants.append(variant_code(sh, vname, attr, lit, targs, None, spell={3: "escaped", 5: "raw"}.get(k % 7)))
         # reference: args evaluated with field names = references to the fields
         ctor = sh.ctor("E::" + vname, fieldvals)
         pat = sh.ctor("E::" + vname, sh.names) if not sh.named else "E::%s { %s }" % (vname, ", ".join(sh.names))
@@ -355,7 +365,7 @@ def run(chk, tier):
     ic = [c for c in implicit_cases(0) if True]
     # unit-name cases use digit-free struct names
     cases += ic
-    chk.part("space", traits=list(TRAITS), literal_variants=total_lits, programs=len(cases),
+    chk.part("space", traits=list(TRAITS), literal_variants=total_lits, programs=len(cases), literal_spellings="2 of every 7 literals written with \\u{..} escapes for every character / as a raw string",
              shapes="unit, tuple 1-3, named 1-3 (integer carrier &'static i32, float carrier f64)",
              argument_templates=["none", "field idents", "reversed idents", "expressions", "name = expr aliases", "alias shadowing a field name", "width/precision arguments", ".* arguments", "self.<field> (structs)"],
              values="3 per field, full product")
